@@ -408,3 +408,6 @@ def run(R, ctx):
     pair(R, ctx)
     registry(R, ctx)
     always(R, ctx)
+    # the replacement written for an interpolated string is never itself an interpolated string (evaluation shared with C06.tostring)
+    from . import c06 as _c06
+    _c06.format_specifier(R, ctx, rid="C07.replacement.tostring-cells", rid_removed="C07.replacement")
